@@ -67,6 +67,50 @@ def gen_expr(rng, depth, addressable):
                          rng.choice([0, 1, 7, 8, 31, 32, 33, 63]))
 
 
+G_TOKENS = 'rfnjbis'
+
+
+def g_next(shape, k):
+    t = shape[k]
+    if t[0] == 'r':
+        return None
+    if t[0] in 'fn':
+        return k + 1
+    return int(t[1])
+
+
+def g_terminates(shape):
+    """no label's body chain runs in a cycle (the harness jumps to every label)"""
+    for k in range(len(shape)):
+        steps = 0
+        while k is not None and k < len(shape):
+            k = g_next(shape, k)
+            steps += 1
+            if steps > len(shape):
+                return False
+    return True
+
+
+def gen_gshape(rng):
+    """bodies of the labels of the G function: what follows an address-taken label is what mir.c's simplification
+    looks at (adjacent labels, a jump right after the label, a jump to the next label, branches, ordinary insns)"""
+    if rng.random() < 0.3:
+        return ['r', 'r', 'r']
+    for _ in range(30):
+        n = rng.choice([1, 2, 3, 3, 4, 5, 6, 8])
+        shape = []
+        for k in range(n):
+            t = rng.choice('rrfnjjjbis')
+            if t in 'jbis':
+                # aim at the neighbours: the next label, the label itself, the previous one, any
+                cand = [(k + 1) % n, (k + 1) % n, (k + 2) % n, (k - 1) % n, rng.randrange(n)]
+                t += str(rng.choice(cand))
+            shape.append(t)
+        if g_terminates(shape):
+            return shape
+    return ['r', 'r', 'r']
+
+
 def gen_case(rng, nitems):
     """a module as a list of item strings (see harness/c14_data.c)"""
     weights = [('D', 30), ('B', 12), ('R', 14), ('E', 9), ('L', 7), ('F', 7), ('Oi', 4), ('Op', 2), ('Of', 5),
@@ -76,6 +120,8 @@ def gen_case(rng, nitems):
     if want_l and rng.random() < 0.97:   # rarely: lrefs without a function holding the labels
         kinds.insert(rng.randrange(len(kinds) + 1), 'G')
     n = len(kinds)
+    gshape = gen_gshape(rng) if 'G' in kinds else ['r', 'r', 'r']
+    nlab = len(gshape)
     # names: data-like items are named with probability pn (a sequence-wide choice)
     pn = rng.choice([0.1, 0.3, 0.3, 0.6])
     named = [k in 'DBREL' and rng.random() < pn for k in kinds]
@@ -118,8 +164,8 @@ def gen_case(rng, nitems):
                 items[i] = '%s %d' % (k, j)
                 continue
         if k == 'L':
-            l2 = '-' if rng.random() < 0.55 else str(rng.randrange(3))
-            items[i] = 'L %s %d %s %x' % (nm, rng.randrange(3), l2, rand_disp(rng) if rng.random() < 0.7 else 0)
+            l2 = '-' if rng.random() < 0.55 else str(rng.randrange(nlab))
+            items[i] = 'L %s %d %s %x' % (nm, rng.randrange(nlab), l2, rand_disp(rng) if rng.random() < 0.7 else 0)
             continue
         if k == 'F':
             rt = rng.choice(TYPES)
@@ -129,7 +175,7 @@ def gen_case(rng, nitems):
                 items[i] = 'F %s %s' % (rt, gen_expr(rng, rng.choice([0, 1, 2, 3]), earlier_addr))
             continue
         if k == 'G':
-            items[i] = 'G'
+            items[i] = 'G' if gshape == ['r', 'r', 'r'] and rng.random() < 0.5 else 'G ' + ' '.join(gshape)
             continue
         if k in ('Oi', 'Op'):
             items[i] = k
@@ -168,6 +214,28 @@ def exhaustive(maxlen):
     for n in range(1, maxlen + 1):
         for t in itertools.product(EXH_ITEMS, repeat=n):
             out.append('i : ' + ' ; '.join(s.replace(' N ', ' %d ' % i) for i, s in enumerate(t)))
+    return out
+
+
+def label_shapes(quick):
+    """all G functions with three labels over the bodies {ret, nothing (adjacent labels), ordinary insn, jmp / branch /
+    indirect jump / switch to the next or the one after} that terminate, each with lrefs to every label, every label
+    difference and a displaced lref, under every engine (rotating in the quick tier)"""
+    import itertools
+    out = []
+    alpha = lambda k: ['r', 'f', 'n', 'j%d' % ((k + 1) % 3), 'j%d' % ((k + 2) % 3), 'b%d' % ((k + 1) % 3),
+                       'i%d' % ((k + 2) % 3), 's%d' % ((k + 1) % 3)]
+    lrefs = ' ; '.join(['L 1 0 - 0', 'L - 1 - 0', 'L - 2 - 1', 'L - 1 0 0', 'L - 2 1 0', 'L - 0 2 0', 'L - 2 0 fffffffffffffff9',
+                        'D - u8 7', 'L - 1 - 8'])
+    engines = ['i', 'g0', 'g1', 'g2', 'g3', 'l2', 'b0', 'b2']
+    n = 0
+    for shape in itertools.product(alpha(0), alpha(1), alpha(2)):
+        if not g_terminates(list(shape)):
+            continue
+        for e in (engines if not quick else [engines[n % len(engines)], engines[(n // 3 + 3) % len(engines)]]):
+            g = 'G ' + ' '.join(shape)
+            out.append('%s : %s ; %s' % (e, g, lrefs) if n % 2 == 0 else '%s : %s ; %s' % (e, lrefs, g))
+        n += 1
     return out
 
 
@@ -401,6 +469,7 @@ def run(chk):
     if os.path.exists(corpus):
         cases += [l.strip() for l in open(corpus) if l.strip() and not l.startswith('#')]
     cases += exhaustive(3 if quick else 5)
+    cases += label_shapes(quick)
     nfixed = len(cases)
     rng = chk.rng('items')
     nrand = 15000 if quick else 120000
@@ -413,6 +482,9 @@ def run(chk):
         for k in ks:
             chk.dist('items', k)
         chk.dist('iface', c[0])
+        for g in [x.split()[1:] for x in c.split(':', 1)[1].split(';') if x.split()[:1] == ['G']] if ':' in c else []:
+            for t in g:
+                chk.dist('g_label_bodies', t[0])
         chk.dist('n_items', min(32, len(ks)))
     chk.cov['rule'] = ('item sequences (data of every element type incl. 0 elements, bss, ref to data/functions/imports/'
                       'forwards with displacement, expr data over integer/float expression functions, lref, section '
